@@ -4,8 +4,9 @@ builder calls, the substitution of a table in a spec ("the same calls with B in 
 from harness import terms_family as tf
 from harness.lib import S, OS, B as Bc, L, P
 
-EXTRA = ("agg", "analytic", "extract", "period", "nested", "subq", "insub", "cmpsub", "exists", "vwterm", "attz", "union")
-PY_ONLY = ("vwterm", "attz", "union")          # no constructor in the model (oracle only)
+EXTRA = ("agg", "analytic", "extract", "period", "nested", "subq", "insub", "cmpsub", "exists", "vwterm", "attz", "union",
+         "values", "bitand_t", "ch_hasany", "ch_tofixed", "ch_length")
+PY_ONLY = ("union", "values", "bitand_t", "ch_hasany", "ch_tofixed", "ch_length")      # no constructor in the model (oracle only)          # no constructor in the model (oracle only)
 
 
 # ----------------------------------------------------------------------------------------------
@@ -108,6 +109,19 @@ def build(t):
         return T.AtTimezone(build(t[1]), t[2])
     if k == "union":        # ["union", qspec, qspec]   a set operation (a Term and a Selectable)
         return build_q(t[1]).union(build_q(t[2]))
+    if k == "values":       # ["values", field]   MySQL VALUES(col)
+        return T.Values(build(t[1]))
+    if k == "bitand_t":     # ["bitand_t", t, v]  bitwiseand with a term as right operand
+        return build(t[1]).bitwiseand(build(t[2]))
+    if k == "ch_hasany":    # ["ch_hasany", f1, f2]
+        from pypika.clickhouse.array import HasAny
+        return HasAny(build(t[1]), build(t[2]))
+    if k == "ch_length":    # ["ch_length", f]
+        from pypika.clickhouse.array import Length
+        return Length(build(t[1]))
+    if k == "ch_tofixed":   # ["ch_tofixed", f, n]
+        from pypika.clickhouse.type_conversion import ToFixedString
+        return ToFixedString(build(t[1]), int(t[2]))
     raise ValueError("unknown term kind %r" % (k,))
 
 
@@ -161,6 +175,16 @@ def children(t):
         return [("ValueWrapper", "value", t[1])]
     if k == "attz":
         return [("AtTimezone", "field", t[1])]
+    if k == "values":
+        return [("Values", "field", t[1])]
+    if k == "bitand_t":
+        return [("BitwiseAndCriterion", "term", t[1]), ("BitwiseAndCriterion", "value", t[2])]
+    if k == "ch_hasany":
+        return [("HasAny", "_left_array", t[1]), ("HasAny", "_right_array", t[2])]
+    if k == "ch_tofixed":
+        return [("ToFixedString", "_field", t[1])]
+    if k == "ch_length":
+        return [("Length", "_array", t[1])]
     return []
 
 
@@ -269,6 +293,16 @@ def subst(A, B, t):
         return ["attz", r(t[1]), t[2]]
     if k == "union":
         return ["union", rq(t[1]), rq(t[2])]
+    if k == "values":
+        return ["values", r(t[1])]
+    if k == "bitand_t":
+        return ["bitand_t", r(t[1]), r(t[2])]
+    if k == "ch_hasany":
+        return ["ch_hasany", r(t[1]), r(t[2])]
+    if k == "ch_tofixed":
+        return ["ch_tofixed", r(t[1]), t[2]]
+    if k == "ch_length":
+        return ["ch_length", r(t[1])]
     return t
 
 
@@ -321,6 +355,14 @@ def subst_stmt(A, B, st):
         ex["on_duplicate"] = [[r(f), r(v)] for f, v in ex["on_duplicate"]]
     if "using" in ex:
         ex["using"] = [subst_tbl(A, B, t) for t in ex["using"]]
+    if "on_conflict" in ex:
+        oc = dict(ex["on_conflict"])
+        oc["fields"] = [r(x) for x in oc.get("fields", [])]
+        oc["updates"] = [[r(f), r(v)] for f, v in oc.get("updates", [])]
+        for k in ("where", "update_where"):
+            if oc.get(k) is not None:
+                oc[k] = r(oc[k])
+        ex["on_conflict"] = oc
     o["extras"] = ex
     return o
 
@@ -402,6 +444,15 @@ def build_stmt(st):
         q = q.distinct_on(*[build(x) for x in ex["distinct_on"]])
     for f, v in ex.get("on_duplicate", []):
         q = q.on_duplicate_key_update(build(f), build(v))
+    if "on_conflict" in ex:     # {"fields": [..], "updates": [[f, v]], "where": crit|None, "update_where": crit|None}
+        oc = ex["on_conflict"]
+        q = q.on_conflict(*[build(x) for x in oc.get("fields", [])])
+        if oc.get("where") is not None:
+            q = q.where(build(oc["where"]))
+        for f, v in oc.get("updates", []):
+            q = q.do_update(build(f), build(v))
+        if oc.get("update_where") is not None:
+            q = q.where(build(oc["update_where"]))
     return q
 
 
@@ -464,6 +515,10 @@ def wt_coq(t):
         return "(WCmpSub %s %s %s %s)" % (tf.CMP[t[1]], term_coq(t[2]), q_coq(t[3]), OS(t[4]))
     if k == "exists":
         return "(WExists %s)" % q_coq(t[1])
+    if k == "vwterm":
+        return "(WValue %s None)" % term_coq(t[1])
+    if k == "attz":
+        return "(WAtTz %s %s None)" % (term_coq(t[1]), S(t[2]))
     return "(WT %s)" % term_coq(t)
 
 
@@ -476,12 +531,10 @@ def src_coq(s):
 
 
 def stmt_coq(st):
-    if st.get("extras"):
-        raise NotModelled("dialect extras")
-    if st.get("dialect", "generic") not in ("generic", "clickhouse"):
-        raise NotModelled("dialect")
-    if st.get("mode") == "delete":
-        raise NotModelled("delete")
+    ex = st.get("extras") or {}
+    if any(k_ not in ("returning", "distinct_on", "on_duplicate", "using") for k_ in ex):
+        raise NotModelled("dialect extras %s" % sorted(ex))
+    kind = {"generic": "QGeneric", "clickhouse": "QClickHouse", "postgresql": "QPostgres", "mysql": "QMySQL"}[st.get("dialect", "generic")]
     ow = lambda x: "None" if x is None else "(Some %s)" % wt_coq(x)    # noqa: E731
     sel = [wt_coq(x) for x in st.get("selects", [])]
     if st.get("star") is not None:
@@ -498,7 +551,7 @@ def stmt_coq(st):
             joins.append("(JCross %s)" % src_coq(j[1]))
     lby = st.get("limit_by")
     fields = [
-        ("s_clickhouse", Bc(st.get("dialect") == "clickhouse")),
+        ("s_kind", kind),
         ("s_from", L([src_coq(s) for s in st.get("from", [])])),
         ("s_insert", "None" if st.get("into") is None else "(Some %s)" % tref_coq(st["into"])),
         ("s_update", "None" if st.get("update") is None else "(Some %s)" % tref_coq(st["update"])),
@@ -514,5 +567,9 @@ def stmt_coq(st):
         ("s_updates", L([P(term_coq(f), wt_coq(v)) for f, v in st.get("sets", [])])),
         ("s_star", L([tref_coq(st["star"])] if st.get("star") is not None else [])),
         ("s_limit_by", L([wt_coq(x) for x in (lby[1] if lby else [])])),
+        ("s_distinct_on", L([wt_coq(x) for x in ex.get("distinct_on", [])])),
+        ("s_returns", L([wt_coq(x) for x in ex.get("returning", [])])),
+        ("s_using", L([tref_coq(x) for x in ex.get("using", [])])),
+        ("s_dup_updates", L([P(term_coq(f), wt_coq(v)) for f, v in ex.get("on_duplicate", [])])),
     ]
     return "{| " + "; ".join("%s := %s" % kv for kv in fields) + " |}"
